@@ -252,9 +252,14 @@ func judgeMarshal(c *core.Ctx, v any, what string) {
 	case ferr == nil && string(fe1) != string(fb):
 		d["escaped_true"] = clip(string(fe1), 800)
 		c.Violation("marshal:MarshalEscaped(true)-differs-from-Marshal", d)
-	case ferr == nil && refenc.EscapeRaw(string(fe0)) != string(fe1):
+	case ferr == nil && what == "dynamic" && refenc.EscapeRaw(string(fe0)) != string(fe1):
+		// (byte identity only for dynamic values: a ",string" struct tag quotes an already escaped
+		// string a second time, in encoding/json as well; struct values are held to encoding/json below)
 		d["escaped_false"], d["escaped_true"] = clip(string(fe0), 800), clip(string(fe1), 800)
 		c.Violation("marshal:html-escaping-switch-changes-more-than-escapes", d)
+	case ferr == nil && !sameAsStdEncoder(v, fe0, false):
+		d["escaped_false"] = clip(string(fe0), 800)
+		c.Violation("marshal:MarshalEscaped(false)-differs-from-encoding/json-Encoder(SetEscapeHTML(false))", d)
 	default:
 		c.Count("marshal:ok")
 		if ferr == nil {
@@ -564,4 +569,15 @@ func init() {
 			}},
 		},
 	})
+}
+
+// sameAsStdEncoder: MarshalEscaped(v, esc) must be what encoding/json's Encoder writes with SetEscapeHTML(esc).
+func sameAsStdEncoder(v any, got []byte, esc bool) bool {
+	var b bytes.Buffer
+	e := stdjson.NewEncoder(&b)
+	e.SetEscapeHTML(esc)
+	if e.Encode(v) != nil {
+		return true // error presence is compared elsewhere
+	}
+	return normBytes(bytes.TrimSuffix(b.Bytes(), []byte("\n"))) == normBytes(got)
 }
